@@ -724,7 +724,7 @@ class MbootSerialDevice(_Transport):
         link.emit(bytes([START, ACK]), {"role": role})
         return True
 
-    def _send_response(self, payload: bytes, role: str, then: Optional[Callable[[], None]]) -> None:
+    def _send_response(self, payload: bytes, role: str, then: Optional[Callable[[], None]], ph: Optional[Phase] = None) -> None:
         wire = frame(CMD, payload)
         new = self._faulted_response(payload, len(wire), role)
         if new is not None:
@@ -735,7 +735,8 @@ class MbootSerialDevice(_Transport):
                 then = None
             self.after_ack = then
             return
-        self.link.emit(wire, {"role": "resp_" + role, "resp_tag": payload[0], "phase": self.phase.direction if self.phase else None})
+        ph = ph or self.phase
+        self.link.emit(wire, {"role": "resp_" + role, "resp_tag": payload[0], "phase": ph.direction if ph else None, "packets": len(ph.packets) if ph else 0})
         self.after_ack = then
 
     def _on_command(self, payload: bytes) -> None:
@@ -791,7 +792,7 @@ class MbootSerialDevice(_Transport):
         assert ph is not None
         final = self.core.phase_final(ph, status)
         self.phase = None
-        self._send_response(final, "final", None)
+        self._send_response(final, "final", None, ph)
 
     def _on_ack(self, ftype: int) -> None:
         if ftype != ACK:
@@ -816,7 +817,7 @@ class MbootSerialDevice(_Transport):
             ph = None
         if ph is None:
             # no command active: boot-image loading mode (load-image)
-            if not self._ack("ack_data"):
+            if not self._ack("ack_image"):
                 return
             if len(payload) > self.core.mps:
                 self.core.violations.append("data packet of %d bytes, max packet size %d" % (len(payload), self.core.mps))
@@ -870,7 +871,7 @@ class MbootHidDevice(_Transport):
         else:
             self.core.violations.append("report id %d from host" % rid)
 
-    def _send_response(self, payload: bytes, role: str) -> bool:
+    def _send_response(self, payload: bytes, role: str, ph: Optional[Phase] = None) -> bool:
         """Returns False when an errstatus fault cancelled the data phase."""
         wire = self._report(HID_CMD_IN, payload)
         new = self._faulted_response(payload, len(wire), role)
@@ -878,7 +879,8 @@ class MbootHidDevice(_Transport):
             kind = self.link.plan.kind
             self.link.emit_after_fault(self._report(HID_CMD_IN, new))
             return not (kind == "errstatus" and role == "initial")
-        self.link.emit(wire, {"role": "resp_" + role, "resp_tag": payload[0], "phase": self.phase.direction if self.phase else None})
+        ph = ph or self.phase
+        self.link.emit(wire, {"role": "resp_" + role, "resp_tag": payload[0], "phase": ph.direction if ph else None, "packets": len(ph.packets) if ph else 0})
         return True
 
     def _on_command(self, payload: bytes) -> None:
@@ -919,7 +921,7 @@ class MbootHidDevice(_Transport):
         assert ph is not None
         final = self.core.phase_final(ph, status)
         self.phase = None
-        self._send_response(final, "final")
+        self._send_response(final, "final", ph)
 
     def _on_data(self, payload: bytes) -> None:
         ph = self.phase
@@ -971,7 +973,7 @@ def selftest() -> list[str]:
         problems.append("ping response P1.0.0 differs from the reference manual")
     # a write-memory conversation, driven by hand
     core = MbootCore(max_packet_size=32)
-    link = SerialLink()
+    link = SerialLink(flush_on_write=False)
     dev = MbootSerialDevice(core, link)
     data = pattern_bytes(1, 70)
     dev.host_write(frame(CMD, cmd_packet(C_WRITE_MEMORY, 1, 0x2000_0000, len(data), 0)))
